@@ -262,7 +262,7 @@ func (m *MdnsManager) AnnounceMdnsEntry() error {
 		"brand=" + m.deviceBrand,
 		"model=" + m.deviceModel,
 		"type=" + m.deviceType,
-		"register=" + fmt.Sprintf("%v", m.autoaccept),
+		"register=" + fmt.Sprintf("%v", m.isAutoAccept()),
 	}
 
 	// SHIP Requirements for Installation Process V1.0.0
@@ -319,8 +319,17 @@ func (m *MdnsManager) setIsServiceAnnounce(value bool) {
 	m.isAnnounced = value
 }
 
+func (m *MdnsManager) isAutoAccept() bool {
+	m.mux.Lock()
+	defer m.mux.Unlock()
+
+	return m.autoaccept
+}
+
 func (m *MdnsManager) SetAutoAccept(accept bool) {
+	m.mux.Lock()
 	m.autoaccept = accept
+	m.mux.Unlock()
 
 	// if announcement is off, don't enforce a new announcement
 	if !m.isServiceAnnounced() {
